@@ -130,6 +130,9 @@ var verifSeedStatements = []string{
 	"USE d",
 	"SHOW DATABASES",
 	"SHOW DATABASE",
+	// non-ASCII text: 2-, 3- and 4-byte characters in a literal, in an identifier
+	// (letters whose upper case is ASCII included: \u017f, \u0131) and as the last character
+	"SELECT 'caf\u00e9 \u20ac \U0001f600', \u017fx, \u0131d FROM t\u00e9 WHERE n\u00e4me = '\u00e9'",
 }
 
 // every seed statement must itself parse (otherwise mutations of it explore little)
@@ -156,17 +159,27 @@ func verifParseText(q string) (interface{}, error) {
 // mode 1: seed statement `seed`, truncated at every position (by choice)
 // mode 2: seed statement with `n` adjacent bytes at a chosen position replaced by symbolic ASCII bytes
 // mode 3: seed statement with `n` symbolic ASCII bytes inserted at a chosen position
+// mode 4: a seed statement cut at the start / middle / last byte / end, then `n` arbitrary bytes
+// full=1: the symbolic bytes range over all 256 values
 func verifH_C09_bytes() {
 	mode := verifParam("mode", 0)
 	n := verifParam("n", 1)
+	full := verifParam("full", 0) == 1 // all 256 byte values instead of ASCII only
 	var q string
 	switch mode {
 	case 0:
 		b := verifBytes("b", n)
 		for _, c := range b {
-			verifAssume(c < 0x80)
+			verifAssume(full || c < 0x80)
 		}
 		q = string(b)
+	case 4:
+		// seed statement cut at a chosen position, followed by n arbitrary bytes
+		// (all 256 values: invalid, truncated and complete UTF-8 sequences at the end of input)
+		seed := verifSeedStatements[verifParam("seed", 0)]
+		cuts := []int{0, len(seed) / 2, len(seed) - 1, len(seed)}
+		b := verifBytes("b", n)
+		q = seed[:cuts[verifChoice("cut", len(cuts))]] + string(b)
 	default:
 		seed := verifSeedStatements[verifParam("seed", 0)]
 		switch mode {
@@ -176,14 +189,14 @@ func verifH_C09_bytes() {
 			at := verifChoice("at", len(seed)-n+1)
 			b := verifBytes("b", n)
 			for _, c := range b {
-				verifAssume(c < 0x80)
+				verifAssume(full || c < 0x80)
 			}
 			q = seed[:at] + string(b) + seed[at+n:]
 		case 3:
 			at := verifChoice("at", len(seed)+1)
 			b := verifBytes("b", n)
 			for _, c := range b {
-				verifAssume(c < 0x80)
+				verifAssume(full || c < 0x80)
 			}
 			q = seed[:at] + string(b) + seed[at:]
 		}
